@@ -126,6 +126,10 @@ type Step struct {
 	Task int    `json:"task,omitempty"` // scheduled programs: which task runs the step
 	DB   int    `json:"db,omitempty"`   // scheduled programs: which database
 	Mode int    `json:"mode,omitempty"` // open with another index mode (C22)
+	// After lists calls made on the transaction handle after the transaction
+	// has finished (committed, rolled back or failed): each must return an
+	// error and change nothing (C12).
+	After []Op `json:"after,omitempty"`
 }
 
 func (s Step) String() string {
